@@ -20,6 +20,7 @@ import (
 	"github.com/markusmobius/go-domdistiller/internal/extractor/embed"
 	"github.com/markusmobius/go-domdistiller/internal/label"
 	"github.com/markusmobius/go-domdistiller/internal/markup"
+	"github.com/markusmobius/go-domdistiller/internal/markup/opengraph"
 	"github.com/markusmobius/go-domdistiller/internal/pagination"
 	"github.com/markusmobius/go-domdistiller/internal/pagination/info"
 	"github.com/markusmobius/go-domdistiller/internal/pagination/parser"
@@ -704,3 +705,12 @@ func VerifLazyAtoms(v string) (bool, bool, bool) { return embed.VerifLazyAtoms(v
 
 // VerifIsForeignRawText is domutil.IsForeignRawTextElement.
 func VerifIsForeignRawText(n *html.Node) bool { return domutil.IsForeignRawTextElement(n) }
+
+// VerifOGPrefixes: the prefixes the OpenGraph parser uses for the document element of root.
+func VerifOGPrefixes(root *html.Node) (string, string, string) {
+	document := dom.QuerySelector(root, "html")
+	if document == nil {
+		document = root
+	}
+	return opengraph.VerifFindPrefixes(document)
+}
